@@ -283,7 +283,12 @@ def _planted_strategy(draw, n, maxcount=3):
         a = rr.bits_assignment(n, x)
         if draw(st.booleans()):
             a = draw(st.permutations(a))      # a total assignment in any literal order
-        lits.append(list(a))
+        a = list(a)
+        if a and draw(st.integers(0, 3)) == 0:
+            # the same literal listed more than once: still the same total assignment
+            for _ in range(draw(st.integers(1, 2))):
+                a.insert(draw(st.integers(0, len(a))), a[draw(st.integers(0, len(a) - 1))])
+        lits.append(a)
     return lits
 
 
@@ -1092,6 +1097,84 @@ def strat_cli_scale(draw):
     return case
 
 
+# ---------------------------------------------------------------------------
+# the dense end of large instances, without planted assignments
+#
+#   {"dense_end": true, "kind": "cnf", "k": 1, "n": 25000, "short": 1, "m": 49999, "via": "library", "rseed": 7}
+#
+# Without planted assignments the sparse sampler (10*m draws with repetition) falls short of m only when (nearly)
+# every possible clause is requested and there are many of them: after 10*T draws about T/e^10 of the T possible
+# clauses are still unseen, so the listing of all clauses takes over at m = T-j roughly when T > 22000*j.  The
+# small grids reach that listing only at m = T exactly; here T is 10^4..10^5 and m = T, T-1, T-2..T-5.
+
+DENSE_POINTS = {
+    'cnf': [(1, 5000), (1, 15000), (1, 50000), (2, 72), (2, 100), (2, 200), (3, 25), (3, 30), (4, 16), (5, 13)],
+    'xor': [(1, 5000), (1, 30000), (1, 50000), (2, 150), (2, 200), (2, 316), (3, 40), (3, 60), (4, 24)],
+}
+DENSE_TOOL_POINTS = [('cnf', 1, 30000), ('cnf', 2, 150), ('cnf', 3, 27), ('xor', 1, 25000), ('xor', 2, 230)]
+# quick tier: (kind, k, n, short, via, r); the states r of the generator are those, found by trying r = 0, 1, ..
+# on the unchanged sampler, after which its 10*m draws fall short (labels '*-dense-path-*' are required)
+DENSE_QUICK = [('cnf', 2, 100, 0, 'formula', 4), ('cnf', 1, 25000, 1, 'library', 2), ('xor', 1, 12000, 0, 'library', 0),
+               ('cnf', 2, 160, 2, 'library', 0), ('xor', 2, 110, 1, 'library', 1), ('cnf', 2, 72, -1, 'library', 0),
+               ('xor', 1, 5000, -1, 'string', 0)]
+
+
+def _dense_case(kind, k, n, short, via, r):
+    total = _total(kind, k, n)
+    rseed = zlib.crc32("D{}:{}:{}:{}:{}".format(kind, k, n, short, r).encode())
+    return {'dense_end': True, 'kind': kind, 'k': k, 'n': n, 'short': short, 'm': total - short, 'via': via,
+            'rseed': rseed}
+
+
+def enum_dense_end(tier):
+    if tier == 'quick':
+        for kind, k, n, short, via, r in DENSE_QUICK:
+            yield _dense_case(kind, k, n, short, via, r)
+        return
+    for kind in KINDS:
+        for k, n in DENSE_POINTS[kind]:
+            total = _total(kind, k, n)
+            for short in (0, 1, 2, 3, 4, 5, -1, -2):
+                # the further below the maximum, the rarer the listing: more generator states where it can happen
+                reps = 1 if short < 0 else 2 if short <= 2 or total < 22000 * short else 4
+                for r in range(reps):
+                    yield _dense_case(kind, k, n, short, 'library', r)
+    for j, (kind, k, n) in enumerate(DENSE_TOOL_POINTS):
+        for short in (0, 1, 2, 3, -1):
+            for r in range(2):
+                yield _dense_case(kind, k, n, short, ('formula', 'string', 'main', 'output')[(j + short + r) % 4], r)
+
+
+def run_dense_end(case):
+    kind, k, n, m, short, via = case['kind'], case['k'], case['n'], case['m'], case['short'], case['via']
+    total = exact_max(kind, k, n, ())
+    if m != total - short:
+        raise RuntimeError("harness: m={} is not maximum {} - {}".format(m, total, short))
+    rec = rr.SampleRecorder()
+    with rec:
+        if via == 'library':
+            out = run_library({'kind': kind, 'k': k, 'n': n, 'm': m, 'planted': [], 'rseed': case['rseed'],
+                               'pc': 'list', 'ac': 'list'}, mx=total)
+        else:
+            # no --seed: the tool goes on from the state of the global generator (one run, no comparison)
+            out = run_cli({'kind': kind, 'k': k, 'n': n, 'm': m, 'plant': False, 'seed': None, 'quiet': True,
+                           'via': via, 'pre': [case['rseed'], 0]})
+    path = rec.path_labels()
+    labels = [kind, 'via-library' if via == 'library' else 'via-tool', 'possible>=10^4' if total >= 10000 else 'possible<10^4']
+    where = 'short=0' if short == 0 else 'short=1' if short == 1 else 'short=2..5' if short > 1 else 'above-max'
+    labels.append(where)
+    if out.rejected:
+        labels.append('above-max-rejected')
+        return Outcome(labels=labels, nontrivial=True, rejected=True)
+    for p in path:
+        labels += [p, '{}-{}'.format(kind, p), '{}-{}'.format(p, where), '{}-{}-{}'.format(kind, p, where)]
+        if short >= 1:
+            labels += ['{}-below-max'.format(p), '{}-{}-below-max'.format(kind, p)]
+        if via != 'library':
+            labels.append('{}-via-tool'.format(p))
+    return Outcome(labels=labels, nontrivial=True)
+
+
 GRID_LABELS = ['cnf', 'xor', 'm=max', 'm=max+1-rejected', 'k>n-rejected', 'k=n', 'k=0', 'n=0', 'm=0',
                'planted=0', 'planted=1', 'planted>=2', 'planted=3', 'planted-equal', 'planted-complementary',
                'sparse-path', 'dense-path', 'cnf-dense-path', 'xor-dense-path', 'cnf-sparse-path',
@@ -1145,4 +1228,16 @@ SUBCHECKS = [
                               'family-boundary', 'family-wide', 'n-in-11..30', 'n>=1000', 'k>=1000', 'k>=1024',
                               'max-beyond-float-range', 'max-beyond-2^53', 'exact-m=max', 'exact-m=max-planted',
                               'exact-m=max-1', 'exact-m=max+1-rejected', 'exact-m=0', 'dense-path', 'sparse-path', 'k=n']),
+    SubCheck('dense_end', run_dense_end, enumerate_cases=enum_dense_end, quick=0, thorough=0,
+             rule="the dense end of large instances, no planted assignments: RandomKCNF / RandomKXOR at m = maximum - j for j = 0, 1, 2..5 and above the maximum (j = -1, -2), "
+                  "where the maximum T = 2^k*C(n,k) (2*C(n,k) parities) is 10^4..10^5, the region in which the sparse sampler gives up within its 10*m draws although m is below the maximum (needs about T > 22000*j) and every clause is listed instead. "
+                  "quick: seven fixed cases of 0.5..3 s - k-CNF (2,100) at T through cli(mode=formula), (1,25000) at T-1, (2,160) at T-2, k-XOR (1,12000) at T, (2,110) at T-1, k-CNF (2,72) and k-XOR (1,5000, through cli(mode=string)) at T+1 - with generator states chosen so that the unchanged sampler gives up in the five legal ones. "
+                  "thorough: k-CNF on (k,n) in {(1,5000), (1,15000), (1,50000), (2,72), (2,100), (2,200), (3,25), (3,30), (4,16), (5,13)}, k-XOR on {(1,5000), (1,30000), (1,50000), (2,150), (2,200), (2,316), (3,40), (3,60), (4,24)}, j in 0..5 and -1, -2, 1..4 generator states each (4 where T > 22000*j), "
+                  "and through the tool (cnfgen -q randkcnf|randkxor k n m via cli(mode=formula|string|output) and main(), generator state set before the call) on k-CNF (1,30000), (2,150), (3,27), k-XOR (1,25000), (2,230) with j in 0..3 and -1. "
+                  "oracle: ValueError / CLIError exactly when m > T (closed form in Python integers); otherwise n variables and exactly m pairwise distinct clauses on k distinct variables of 1..n (k-XOR: exactly m*2^(k-1) clauses that decode, whatever their order, into m distinct parities with the complete block of 2^(k-1) sign patterns each). "
+                  "Whether the listing took over is observed from outside (random.sample on a list instead of a range, pass-through wrapper) and only labels the case. non-trivial: every case",
+             required_labels=['cnf', 'xor', 'via-library', 'via-tool', 'possible>=10^4', 'short=0', 'short=1', 'short=2..5',
+                              'above-max-rejected', 'dense-path', 'cnf-dense-path', 'xor-dense-path',
+                              'dense-path-short=0', 'dense-path-short=1', 'dense-path-short=2..5',
+                              'cnf-dense-path-below-max', 'xor-dense-path-below-max', 'dense-path-via-tool']),
 ]
